@@ -69,7 +69,7 @@ FlO == Iris({"a/"}, {"x", "y"}) \cup {PlainLit("l")}
 FlG == {DG, <<"iri", "a/", "x">>}
 
 \* mixed universe for simulation: more names than the minimum name table, more prefixes/datatypes than slots
-MixNames == {"n0", "n1", "n2", "n3", "n4", "n5", "n6", "n7", "n8", "n9", "w", "x"}
+MixNames == {"n0", "n1", "n2", "n3", "n4", "n5", "n6", "n7", "n8", "n9", "w", "x", ""}     \* "": IRIs that END with the separator (namespace IRIs), and the empty IRI
 MixPfx   == {"a/", "b#", "b/", "c/", "d#", ""}
 MixIri   == Iris(MixPfx, MixNames)
 MixLits  == {PlainLit("l"), PlainLit("1"), LangLit("l", "en"), LangLit("l2", "en"), TypedLit("1", "d:a"),
